@@ -360,6 +360,43 @@ def gen_doc(rng, small=False):
     return d
 
 
+# --- free text that output layers like to interpret: console markup, emoji codes, ANSI escapes, format
+#     directives, backslashes, long lines, blanks
+TRICKY = ["[a.u.]", "[px]", "[um]", "[bold]", "[/bold]", "[BOLD]", "[Bold x]", "[red]x[/red]", "intensity [a.u.] (raw)",
+          "[[nested]]", "[a[b]c]", "\\[escaped]", "\\\\[px]", "[link=http://x.y]z[/link]", "[#ff0000]", "[on red]x", "[/]", "[]", "[ ]",
+          ":smiley:", ":warning: careful", "a:b:c", ":+1:", "\x1b[31mred\x1b[0m", "\x1b[2K", "{}", "{0}", "{name}", "%s", "%(x)d", "100%",
+          "back\\slash", "C:\\data\\new", "\\n", "  leading", "trailing  ", " ", "\ttab\t", "line1\nline2", "a\rb",
+          "long " + "word " * 60 + "end", "x" * 260, "<b>html</b>", "&amp;", "\"quoted\"", "'single'", "`tick`", "$HOME", "~", "#", "//",
+          "😀 [px] :smiley:"]
+
+
+def gen_doc_tricky(rng, everywhere=None):
+    """a valid document whose free-text fields (axis names, units, identifiers, names, descriptions, paths, sphere /
+    ellipsoid, track values, extra keys and values) are drawn from TRICKY; `everywhere` = put this one string in all"""
+    def t():
+        return everywhere if everywhere is not None else rng.choice(TRICKY)
+
+    k = 2 if everywhere is not None else rng.randint(1, 3)
+    names = [t() + ("" if i == 0 else f" #{i}") for i in range(k)]
+    names = list(dict.fromkeys(names))
+    axes = []
+    for n in names:
+        a = {"name": n, "unit": t(), "type": rng.choice(AXIS_TYPES + [None])}
+        if rng.random() < 0.6 or everywhere is not None:
+            a["scale"], a["scaled_unit"] = rng.choice([0.5, 2.0]), t()
+        axes.append(a)
+    ids = list(dict.fromkeys([t(), t() + "_2"]))
+    pm = lambda i: {"identifier": i, "dtype": rng.choice(DTYPES_OK), "unit": t(), "name": t(), "description": t()}  # noqa: E731
+    d = {"directed": rng.random() < 0.5, "axes": axes,
+         "node_props_metadata": {i: pm(i) for i in ids}, "edge_props_metadata": {ids[0]: pm(ids[0])},
+         "sphere": t(), "ellipsoid": t(), "track_node_props": {"lineage": t(), "tracklet": t()},
+         "related_objects": [{"type": "labels", "path": t(), "label_prop": t()}, {"type": t() or "other", "path": t()}],
+         "display_hints": {"display_horizontal": names[0], "display_vertical": names[-1], "display_depth": None,
+                           "display_time": names[0]},
+         "extra": {t(): t(), "list": [t(), {t(): [t()]}], "plain": 1}}
+    return d
+
+
 # --- catalogue of field values: (value, tag) ; tag "ok" = valid on every base that declares no
 #     conflicting axes, "bad" = must be rejected, "ctx" = validity depends on the object, "gray" =
 #     pydantic lax coercion (outside the model; only the specification is evaluated)
